@@ -276,8 +276,29 @@ void VariableManager::process_variable_declaration(const ASTNode *node) {
                 debug_msg(DebugMsgId::GENERIC_DEBUG,
                           "[ENUM_VAR_DECL_MANAGER] Evaluating init ");
 
+                // try / checked build their Result by throwing it
+                // (evaluate_try_like_expression): take it as the initial value
+                // instead of letting it end the enclosing function
+                if (init_node->node_type == ASTNodeType::AST_TRY_EXPR ||
+                    init_node->node_type == ASTNodeType::AST_CHECKED_EXPR) {
+                    try {
+                        interpreter_->eval_expression(init_node);
+                    } catch (const ReturnException &ret) {
+                        if (!(ret.is_struct && ret.struct_value.is_enum)) {
+                            throw;
+                        }
+                        var.enum_variant = ret.struct_value.enum_variant;
+                        var.has_associated_value =
+                            ret.struct_value.has_associated_value;
+                        var.associated_int_value =
+                            ret.struct_value.associated_int_value;
+                        var.associated_str_value =
+                            ret.struct_value.associated_str_value;
+                        var.is_assigned = true;
+                    }
+                }
                 // AST_FUNC_CALLの場合、ReturnExceptionをキャッチ
-                if (init_node->node_type == ASTNodeType::AST_FUNC_CALL) {
+                else if (init_node->node_type == ASTNodeType::AST_FUNC_CALL) {
                     debug_msg(
                         DebugMsgId::GENERIC_DEBUG,
                         "[ENUM_VAR_DECL_MANAGER] Function call detected, ");
